@@ -188,10 +188,176 @@ def invert_ifs(tree):
     return n
 
 
+def _terminates(stmts):
+    if not stmts:
+        return False
+    last = stmts[-1]
+    if isinstance(last, (ast.Return, ast.Raise, ast.Continue, ast.Break)):
+        return True
+    if isinstance(last, ast.If) and last.orelse:
+        return _terminates(last.body) and _terminates(last.orelse)
+    return False
+
+
+def _blocks(tree):
+    for node in ast.walk(tree):
+        for fld in ('body', 'orelse', 'finalbody'):
+            blk = getattr(node, fld, None)
+            if isinstance(blk, list) and blk and isinstance(
+                    blk[0], ast.stmt):
+                yield node, fld, blk
+        if isinstance(node, ast.Try):
+            for h in node.handlers:
+                yield h, 'body', h.body
+
+
+def merge_ifs(tree):
+    """if a: (only statement) if b: X   ->   if a and b: X"""
+    n = 0
+    changed = True
+    while changed:
+        changed = False
+        for node in ast.walk(tree):
+            if isinstance(node, ast.If) and not node.orelse and len(
+                    node.body) == 1 and isinstance(
+                        node.body[0], ast.If) and not node.body[0].orelse:
+                inner = node.body[0]
+                node.test = ast.BoolOp(op=ast.And(),
+                                       values=[node.test, inner.test])
+                node.body = inner.body
+                n += 1
+                changed = True
+    ast.fix_missing_locations(tree)
+    return n
+
+
+def split_ifs(tree):
+    """if a and b: X (no else)   ->   if a: if b: X"""
+    n = 0
+    for node in list(ast.walk(tree)):
+        if isinstance(node, ast.If) and not node.orelse and isinstance(
+                node.test, ast.BoolOp) and isinstance(node.test.op, ast.And):
+            vals = node.test.values
+            inner_body = node.body
+            for v in reversed(vals[1:]):
+                inner_body = [ast.If(test=v, body=inner_body, orelse=[])]
+            node.test = vals[0]
+            node.body = inner_body
+            n += 1
+    ast.fix_missing_locations(tree)
+    return n
+
+
+def flatten_else(tree):
+    """if c: <never falls through> else: B   ->   if c: ...   B"""
+    n = 0
+    changed = True
+    while changed:
+        changed = False
+        for node, fld, blk in list(_blocks(tree)):
+            for i, st in enumerate(blk):
+                if isinstance(st, ast.If) and st.orelse and _terminates(
+                        st.body) and not (len(st.orelse) == 1 and isinstance(
+                            st.orelse[0], ast.If) and False):
+                    rest = st.orelse
+                    st.orelse = []
+                    blk[i + 1:i + 1] = rest
+                    n += 1
+                    changed = True
+                    break
+            if changed:
+                break
+    ast.fix_missing_locations(tree)
+    return n
+
+
+def absorb_else(tree):
+    """if c: <never falls through>  rest...   ->   if c: ... else: rest"""
+    n = 0
+    changed = True
+    while changed:
+        changed = False
+        for node, fld, blk in list(_blocks(tree)):
+            for i, st in enumerate(blk):
+                if isinstance(st, ast.If) and not st.orelse and _terminates(
+                        st.body) and i + 1 < len(blk):
+                    st.orelse = blk[i + 1:]
+                    del blk[i + 1:]
+                    n += 1
+                    changed = True
+                    break
+            if changed:
+                break
+    ast.fix_missing_locations(tree)
+    return n
+
+
+def alias_decorators(tree):
+    """@db_api.placement_context_manager.writer -> @_writer_rn with a
+    module-level alias (same for reader)."""
+    n = 0
+    used = set()
+    for node in ast.walk(tree):
+        if isinstance(node, (ast.FunctionDef, ast.AsyncFunctionDef)):
+            for i, d in enumerate(node.decorator_list):
+                txt = ast.unparse(d)
+                for kind in ('writer', 'reader'):
+                    if txt == 'db_api.placement_context_manager.' + kind:
+                        node.decorator_list[i] = ast.Name(
+                            id='_%s_rn' % kind, ctx=ast.Load())
+                        used.add(kind)
+                        n += 1
+    if used:
+        idx = 0
+        for i, st in enumerate(tree.body):
+            if isinstance(st, (ast.Import, ast.ImportFrom)) or (
+                    isinstance(st, ast.Expr) and isinstance(
+                        st.value, ast.Constant)):
+                idx = i + 1
+        for kind in sorted(used):
+            tree.body.insert(idx, ast.parse(
+                '_%s_rn = db_api.placement_context_manager.%s' % (
+                    kind, kind)).body[0])
+    ast.fix_missing_locations(tree)
+    return n
+
+
+def rename_private_functions(tree):
+    """Every module-level function whose name starts with one underscore
+    (not dunder) gets the suffix _rn, with all references inside the module
+    (other modules refer to it by attribute and are left alone, so only
+    functions never referenced from outside are renamed: see main)."""
+    names = {st.name for st in tree.body
+             if isinstance(st, (ast.FunctionDef, ast.AsyncFunctionDef))
+             and st.name.startswith('_') and not st.name.startswith('__')
+             and st.name not in EXTERNAL_REFS}
+    for node in ast.walk(tree):
+        if isinstance(node, (ast.FunctionDef, ast.AsyncFunctionDef)) and \
+                node.name in names and node in tree.body:
+            node.name += '_rn'
+        elif isinstance(node, ast.Name) and node.id in names:
+            node.id += '_rn'
+    ast.fix_missing_locations(tree)
+    return len(names)
+
+
+MODE = None
+EXTERNAL_REFS = set()
+MODES = {'--merge-ifs': merge_ifs, '--split-ifs': split_ifs,
+         '--flatten-else': flatten_else, '--absorb-else': absorb_else,
+         '--alias-decorators': alias_decorators,
+         '--rename-functions': rename_private_functions}
+
+
 def variant(relpath, repo='/repo'):
     with open(os.path.join(repo, relpath), encoding='utf-8') as fh:
         src_ = fh.read()
     tree = ast.parse(src_)
+    if MODE:
+        n = MODES[MODE](tree)
+        out = ast.unparse(tree) + '\n'
+        compile(out, relpath, 'exec')
+        return out, n
     if INVERT_IF:
         n = invert_ifs(tree)
         out = ast.unparse(tree) + '\n'
@@ -220,9 +386,10 @@ def failed_keys(ctx):
 
 
 def work(args):
-    global RENAME_PARAMS, INVERT_IF
-    relpath, base, RENAME_PARAMS, kws, INVERT_IF = args
+    global RENAME_PARAMS, INVERT_IF, MODE
+    relpath, base, RENAME_PARAMS, kws, INVERT_IF, MODE, ext = args
     KW_NAMES.update(kws)
+    EXTERNAL_REFS.update(ext)
     t0 = time.time()
     try:
         src_, n = variant(relpath)
@@ -243,6 +410,7 @@ def main(argv):
     pats = []
     params = False
     invert = False
+    mode = None
     it = iter(argv)
     for a in it:
         if a == '--jobs':
@@ -251,6 +419,8 @@ def main(argv):
             params = True
         elif a == '--invert-if':
             invert = True
+        elif a in MODES:
+            mode = a
         else:
             pats.append(a)
     base_ctx = psarun.Ctx('/repo')
@@ -266,7 +436,18 @@ def main(argv):
         for n in ast.walk(m.tree):
             if isinstance(n, ast.keyword) and n.arg:
                 kws.add(n.arg)
-    tasks = [(m, base_l, params, sorted(kws), invert) for m in mods]
+    # private functions referenced from another module (mod._name) or by
+    # the tests keep their names in --rename-functions
+    ext = set()
+    for m in base_ctx.prog.modules.values():
+        for n in ast.walk(m.tree):
+            if isinstance(n, ast.Attribute) and n.attr.startswith('_'):
+                ext.add(n.attr)
+            if isinstance(n, ast.ImportFrom):
+                for al in n.names:
+                    ext.add(al.name)
+    tasks = [(m, base_l, params, sorted(kws), invert, mode, sorted(ext))
+             for m in mods]
     bad = 0
     with multiprocessing.Pool(min(jobs, len(tasks))) as pool:
         for relpath, n, new, errs, dt in pool.imap_unordered(work, tasks):
